@@ -1968,7 +1968,13 @@ func (c *ConcCtx) buildPrefix(e *Exec) {
 		return True
 	}
 	for _, tr := range c.truncs {
-		add(Not(And(tr[0].(*Term), x(tr[1].(*Event)))))
+		// a prefix in which a thread has run up to a point where its path was cut at the unroll bound says nothing:
+		// excluded (path condition holds and every event of that path has been executed)
+		conj := []*Term{tr[0].(*Term)}
+		for _, ev := range tr[1].([]*Event) {
+			conj = append(conj, Implies(ev.Guard, x(ev)))
+		}
+		add(Not(And(conj...)))
 	}
 	// the values read / chosen by a thread must be consistent with one of its symbolic paths (this is what keeps
 	// harness assumptions in force for prefixes)
@@ -2104,7 +2110,9 @@ func (c *ConcCtx) noteTruncation(st *State) {
 	if st.Thread == nil || len(st.Thread.events) == 0 {
 		return
 	}
-	c.truncs = append(c.truncs, [2]interface{}{st.PCTerm(), st.Thread.events[len(st.Thread.events)-1]})
+	// the whole event list of the path (after merges its tail mixes events of several branches: the last element
+	// need not lie on this path)
+	c.truncs = append(c.truncs, [2]interface{}{st.PCTerm(), append([]*Event(nil), st.Thread.events...)})
 	st.Thread.rec.leafPCs = append(st.Thread.rec.leafPCs, st.PCTerm())
 }
 
